@@ -7,9 +7,27 @@ The state S is threaded THROUGH a raise."""
 import ast
 import re
 
-from core import Unsupported, cname, cstr, par, indent
+from core import Unsupported, cname, cstr, par, indent, parse_type
 from expr import (Env, expr, truth, none_test, is_obj, slot_match, resolve_fn, call_fn, call_args, getd,
                   iterable, bind_target)
+from core import match_pattern
+
+
+def oracle_match(mod, node):
+    """a call whose result is an input of the model (user function, random generator)"""
+    for o in mod.oracles:
+        holes = {}
+        if match_pattern(o['ast'], node, holes):
+            return o, holes
+    return None
+
+
+def method_stmt(env_vars, s):
+    """`local.extend(e)` / a call listed under noop_calls -> (kind, local name)"""
+    if isinstance(s, ast.Expr) and isinstance(s.value, ast.Call) and isinstance(s.value.func, ast.Attribute) \
+            and isinstance(s.value.func.value, ast.Name) and not s.value.keywords:
+        return s.value.func.attr, s.value.func.value.id
+    return None
 
 
 # ---------------------------------------------------------------- effect analysis
@@ -84,9 +102,15 @@ def effects(mod, stmts, env):
     def walk(n, in_loop):
         if isinstance(n, (ast.FunctionDef, ast.AsyncFunctionDef, ast.ClassDef)):
             raise Unsupported(n, 'nested %s is outside the supported subset' % type(n).__name__)
-        if isinstance(n, (ast.While, ast.With, ast.Global, ast.Nonlocal, ast.Delete, ast.Import, ast.ImportFrom,
-                          ast.Assert, ast.Match, ast.AsyncFor, ast.AsyncWith)):
+        if isinstance(n, ast.While) and mod._cur and mod._cur.get('while_fuel'):
+            if 'fuel_ok' not in e.assigned:
+                e.assigned.append('fuel_ok')
+        elif isinstance(n, (ast.While, ast.With, ast.Global, ast.Nonlocal, ast.Delete, ast.Import, ast.ImportFrom,
+                            ast.Assert, ast.Match, ast.AsyncFor, ast.AsyncWith, ast.Break, ast.Try)):
             raise Unsupported(n, 'statement %s is outside the supported subset' % type(n).__name__)
+        ms = method_stmt(None, n)
+        if ms and ms[0] == 'extend' and ms[1] not in e.assigned:
+            e.assigned.append(ms[1])
         if isinstance(n, ast.Raise):
             if raise_is_return(mod, n, env):
                 e.returns = True
@@ -103,6 +127,13 @@ def effects(mod, stmts, env):
             target(n.target, n)
         elif isinstance(n, ast.For):
             target(n.target, n)
+        elif isinstance(n, ast.Call) and oracle_match(mod, n):
+            o = oracle_match(mod, n)[0]
+            for v in (o['results'], o.get('log')):
+                if v and v not in e.assigned:
+                    e.assigned.append(v)
+            if o.get('guard'):
+                e.exc = True
         elif isinstance(n, ast.Call):
             f = resolve_fn(env, n.func)
             if f is not None:
@@ -213,6 +244,11 @@ def exn_term(mod, node, env):
     if len(c.args) != 1:
         raise Unsupported(node, '%s with %d arguments' % (c.func.id, len(c.args)))
     a = c.args[0]
+    if spec.get('arg') == 'value':
+        v, t = expr(env, a)
+        if t != ('str',):
+            raise Unsupported(node, '%s of a %s' % (c.func.id, t[0]))
+        return spec['coq'].format(par(v))
     if isinstance(a, ast.BinOp) and isinstance(a.op, ast.Mod) and isinstance(a.left, ast.Constant) and isinstance(a.left.value, str):
         expr(env, a.right)       # the formatted value must itself be translatable
         text = a.left.value
@@ -250,6 +286,15 @@ def block(stmts, env, ctx, tail):
             if not ctx.loop and f.ret == ctx.ret and f.exc == ctx.exc and list(f.writes) == ctx.state:
                 return c
             return bind_call(env, ctx, f, c, 'r_', s, lambda e2: ctx.ret_(e2, 'r_', s))
+        if ctx.ret[0] == 'orexn':
+            # the function returns either a value or an exception OBJECT (it does not raise it)
+            if isinstance(s.value, ast.Call) and isinstance(s.value.func, ast.Name) and s.value.func.id in ctx.mod.exceptions:
+                fake = ast.copy_location(ast.Raise(exc=s.value, cause=None), s)
+                return ctx.ret_(env, 'inr %s' % par(exn_term(ctx.mod, fake, env)), s)
+            v, t = expr(env, s.value, ctx.ret[1])
+            if t != ctx.ret[1]:
+                raise Unsupported(s, 'return of a %s where the signature file says %s' % (t, ctx.ret))
+            return ctx.ret_(env, 'inl %s' % par(v), s)
         v, t = expr(env, s.value, ctx.ret)
         if t != ctx.ret:
             raise Unsupported(s, 'return of a %s where the signature file says %s' % (t, ctx.ret))
@@ -276,6 +321,20 @@ def block(stmts, env, ctx, tail):
         if not isinstance(s.target, ast.Name):
             raise Unsupported(s, 'augmented assignment to something other than a local')
         return assign(s, s.target, ast.copy_location(ast.BinOp(left=ast.Name(id=s.target.id, ctx=ast.Load()), op=s.op, right=s.value), s), env, ctx, k)
+    if isinstance(s, ast.Expr) and ast.unparse(s.value) in (ctx.mod._cur or {}).get('noop_calls', {}):
+        ctx.mod.assume(s, (ctx.mod._cur or {})['noop_calls'][ast.unparse(s.value)])
+        return k(env)
+    if isinstance(s, ast.Expr) and method_stmt(None, s) and method_stmt(None, s)[0] == 'extend' \
+            and method_stmt(None, s)[1] in env.vars and len(s.value.args) == 1:
+        name = method_stmt(None, s)[1]
+        cq, lt = env.vars[name]
+        v, t = expr(env, s.value.args[0])
+        if lt[0] != 'list' or t != lt:
+            raise Unsupported(s, 'extend of a %s by a %s' % (lt, t))
+        e2 = env.fork()
+        return let(cq, '%s ++ %s' % (par(cq), par(v)), k(e2))
+    if isinstance(s, ast.While):
+        return while_stmt(s, env, ctx, k)
     if isinstance(s, ast.Expr):
         if isinstance(s.value, ast.Call):
             f = resolve_fn(env, s.value.func)
@@ -356,9 +415,78 @@ def bind_call(env, ctx, f, c, x, node, k):
     return arms(c, ('Raise e', ctx.raise_(e2, 'e', node)), ('Ok %s' % x, kt))
 
 
+def oracle_bind(env, ctx, value, node, use):
+    """value is an oracle call: consume the next recorded result, log the arguments; use(env, text, type)
+    continues with the result"""
+    mod = ctx.mod
+    o, holes = oracle_match(mod, value)
+    args = []
+    for i, at in enumerate(o['args']):
+        a, t = expr(env, holes['_%d_' % i], at)
+        a, t, _, _ = coerce_to(env, a, t, at)
+        if t != at:
+            raise Unsupported(node, 'argument %d of the oracle call has type %s, the signature file says %s' % (i, t, at))
+        args.append(a)
+    res = o['results']
+    if res not in env.vars or env.vars[res][1] != ('list', o['ret']):
+        raise Unsupported(node, 'the result list %s of the oracle is not in scope with type list %s' % (res, o['ret']))
+    e2 = env.fork()
+    rq = env.vars[res][0]
+    r = 'r_'
+    e2.vars['r_'] = (r, o['ret'])
+    body = use(e2, r, o['ret'])
+    if o.get('log'):
+        lq, lt = env.vars[o['log']]
+        body = let(lq, '%s ++ [(%s)]' % (par(lq), ', '.join(args)), body)
+    body = let(r, 'hd %s %s' % (mod.T.default(o['ret'], node), par(rq)), let(rq, 'tl %s' % par(rq), body))
+    if o.get('guard'):
+        g = o['guard'].format(*[par(a) for a in args])
+        return ite(g, body, ctx.raise_(env, mod.exceptions[o['guard_exn']]['coq'], node))
+    return body
+
+
+def coerce_to(env, a, t, want):
+    from expr import arith
+    if t == ('nat',) and arith(env, want) == 'Z':
+        return 'Z.of_nat %s' % par(a), want, None, None
+    return a, t, None, None
+
+
 def assign(s, target, value, env, ctx, k):
     mod = ctx.mod
     e2 = env.fork()
+    declared = (mod._cur or {}).get('locals', {})
+    if isinstance(value, ast.Call) and oracle_match(mod, value):
+        def use(e3, r, rt):
+            tmp = ast.copy_location(ast.Name(id='r_', ctx=ast.Load()), value)
+            return assign(s, target, tmp, e3, ctx, k)
+        return oracle_bind(env, ctx, value, s, use)
+    if isinstance(target, ast.Subscript) and isinstance(target.slice, ast.Slice) and isinstance(target.value, ast.Name) \
+            and target.value.id in env.vars:
+        cq, lt = env.vars[target.value.id]
+        sl = target.slice
+        if lt[0] != 'list' or sl.step is not None or sl.lower is None or sl.upper is None:
+            raise Unsupported(s, 'slice assignment other than a[s:e] = v on a list')
+        lo, t1 = expr(env, sl.lower)
+        hi, t2 = expr(env, sl.upper)
+        if t1 != ('nat',) or t2 != ('nat',):
+            raise Unsupported(s, 'slice bounds that are not integers')
+        v, t = expr(env, value, lt[1])
+        if t == lt[1] and isinstance(value, ast.Constant):
+            v = 'repeat %s (%s - %s)' % (par(v), par(hi), par(lo))      # numpy broadcasts a scalar over the slice
+        elif t != lt:
+            raise Unsupported(s, 'slice assignment of a %s into a %s' % (t, lt))
+        else:
+            mod.assume(s, 'a[s:e] = v is the splice of v (numpy requires len v = e - s; not checked here)')
+        return let(cq, 'splice %s %s %s %s' % (par(cq), par(lo), par(hi), par(v)), k(e2))
+    if isinstance(target, ast.Subscript) and isinstance(target.value, ast.Name) and target.value.id in env.vars \
+            and env.vars[target.value.id][1][0] == 'zdict':
+        cq, dt = env.vars[target.value.id]
+        key, kt = expr(env, target.slice)
+        v, t = expr(env, value, dt[1])
+        if kt != ('int',) or t != dt[1]:
+            raise Unsupported(s, 'store of a %s under a %s key into a %s' % (t, kt, dt))
+        return let(cq, 'zdset %s %s %s' % (par(cq), par(key), par(v)), k(e2))
     # --- special right-hand sides bound to a local without emitting code
     if isinstance(target, ast.Name):
         lam = lambda_get(value)
@@ -389,10 +517,15 @@ def assign(s, target, value, env, ctx, k):
                 e3.vars[target.id] = (cq, f.ret)
                 return k(e3)
             return bind_call(env, ctx, f, c, cq, s, kk)
-        v, t = expr(env, value, env.vars[target.id][1] if target.id in env.vars else None)
+        want = env.vars[target.id][1] if target.id in env.vars else (parse_type(declared[target.id]) if target.id in declared else None)
+        if target.id in (mod._cur or {}).get('retype', []):
+            want = None
+        v, t = expr(env, value, want)
+        if want is not None and target.id not in env.vars and t != want:
+            raise Unsupported(s, 'local %s is declared %s in the signature file but assigned a %s' % (target.id, want, t))
         if isinstance(value, ast.Attribute) and isinstance(value.value, ast.Name) and value.value.id in env.structs and t[0] == 'list':
             mod.aliases.append((target.id, mod.struct_field(env.structs[value.value.id], value.value.id, value.attr, s), s))
-        if target.id in env.vars and env.vars[target.id][1] != t:
+        if target.id in env.vars and env.vars[target.id][1] != t and target.id not in (mod._cur or {}).get('retype', []):
             raise Unsupported(s, 'local %s changes type from %s to %s' % (target.id, env.vars[target.id][1], t))
         e2.vars[target.id] = (cq, t)
         e2.funopts.pop(target.id, None)
@@ -523,7 +656,8 @@ def if_stmt(s, rest, env, ctx, tail):
         b = block(s.orelse, ee, ctx, (lambda e: k(e)) if not to else dead(s))
         return wrap(a, b)
     eb = effects(ctx.mod, s.body + s.orelse, env)
-    if eb.returns or eb.continues:
+    direct_raise = any(isinstance(n, ast.Raise) for st in s.body + s.orelse for n in ast.walk(st))
+    if eb.returns or eb.continues or direct_raise:
         # a branch leaves in the middle: compile each branch with the continuation (it is duplicated)
         return wrap(block(s.body, et, ctx, k), block(s.orelse, ee, ctx, k))
     if not eb.writes and not eb.exc:
@@ -540,16 +674,35 @@ def if_stmt(s, rest, env, ctx, tail):
             raise Unsupported(s, 'if statement without any effect')
         types = {}
 
+        seen = {}
+        unify = [False]
+
         def out(e):
+            names = []
             for v in merged:
-                types.setdefault(v, e.vars[v][1])
-                if types[v] != e.vars[v][1]:
-                    raise Unsupported(s, 'local %s has different types in the two branches' % v)
-            names = [e.vars[v][0] for v in merged]
+                cq, t = e.vars[v]
+                seen.setdefault(v, set()).add(t)
+                if unify[0] and types[v][0] == 'option' and t != types[v]:
+                    cq = cq if t == ('none',) else 'Some %s' % par(cq)      # None | T  ->  option T
+                names.append(cq)
             return names[0] if len(names) == 1 else '(%s)' % ', '.join(names)
         sub = Ctx(ctx.mod, [], False, ('unit',))
-        a = block(s.body, et, sub, out)
-        b = block(s.orelse, ee, sub, out)
+        mark = len(ctx.mod.out)
+        a = block(s.body, et.fork(), sub, out)
+        b = block(s.orelse, ee.fork(), sub, out)
+        for v in merged:
+            ts = seen[v] - {('none',)}
+            if len(ts) != 1:
+                raise Unsupported(s, 'local %s has different types in the branches' % v)
+            t = list(ts)[0]
+            types[v] = ('option', t) if ('none',) in seen[v] and t[0] != 'option' else t
+        if any(('none',) in seen[v] for v in merged):
+            # second pass with the unified types (None | T is option T)
+            if len(ctx.mod.out) != mark:
+                raise Unsupported(s, 'a loop inside branches that assign None')
+            unify[0] = True
+            a = block(s.body, et, sub, out)
+            b = block(s.orelse, ee, sub, out)
         e2 = env.fork()
         for v in merged:
             e2.vars[v] = (cname(v.replace('.', '_')), types[v])
@@ -691,6 +844,58 @@ def for_stmt(s, env, ctx, k):
     if state:
         return let(Spat if len(state) == 1 else "'" + Spat, fold, k(e2))
     return arms(fold, ('Raise e', ctx.raise_(e2, 'e', s)), ('Ok _', k(e2)))
+
+
+def while_stmt(s, env, ctx, k):
+    """while c: body  ->  structural recursion on an explicit fuel argument.  The generated function
+    returns (state, true) when the condition became false and (state, false) when the fuel ran out;
+    the caller folds that flag into the local fuel_ok, which the function returns."""
+    mod = ctx.mod
+    cur = mod._cur or {}
+    if not cur.get('while_fuel'):
+        raise Unsupported(s, 'statement While is outside the supported subset (no fuel named in the signature file)')
+    if s.orelse:
+        raise Unsupported(s, 'while ... else')
+    be = effects(mod, s.body, env)
+    if be.writes or be.exc or be.returns or be.continues or 'fuel_ok' in be.assigned:
+        raise Unsupported(s, 'a while body that raises, returns, continues, writes object state or contains another while')
+    if 'fuel_ok' not in env.vars:
+        raise Unsupported(s, 'internal: fuel_ok is not in scope')
+    state = by_first_use([v for v in env.vars if v in be.assigned], [s])
+    if not state:
+        raise Unsupported(s, 'a while loop that changes nothing')
+    i = mod._whiles.get(id(cur), 0)
+    mod._whiles[id(cur)] = i + 1
+    if i >= len(cur.get('whiles', [])) or i >= len(cur['while_fuel']):
+        raise Unsupported(s, 'while number %d of %s has no name / fuel in the signature file' % (i + 1, cur['py']))
+    name = cur['whiles'][i]
+    fuel, ft = expr(env, ast.parse(cur['while_fuel'][i], mode='eval').body)
+    if ft != ('nat',):
+        raise Unsupported(s, 'the fuel expression of %s is not an integer' % name)
+    benv = env.fork()
+    cond = truth(benv, s.test)
+    lctx = Ctx(mod, state, False, ('unit',), loop='plain')
+    body = block(s.body, benv, lctx, lambda e: lctx.cont(e))
+    free = [v for v in env.vars if v not in state and v != 'fuel_ok' and (uses_name(s.body, v) or uses_name([s.test], v))]
+    fparams = [(env.vars[v][0], mod.T.coq(env.vars[v][1], False)) for v in free]
+    stypes = [mod.T.coq(env.vars[v][1], False) for v in state]
+    snames = [env.vars[v][0] for v in state]
+    Sty = stypes[0] if len(stypes) == 1 else '(%s)' % ' * '.join(stypes)
+    Spat = snames[0] if len(snames) == 1 else '(%s)' % ', '.join(snames)
+    rec = ' '.join([name, "fuel'"] + [n for n, _ in fparams])
+    text = ("let %s := st in\n" % (Spat if len(snames) == 1 else "'" + Spat)
+            + 'if %s\nthen\n  match fuel with\n  | O => (st, false)\n  | S fuel\' =>\n      %s\n%s\n  end\nelse (st, true)'
+            % (cond, rec, indent(par_block(body), 8)))
+    params = ' (fuel : nat)' + ''.join(' (%s : %s)' % x for x in fparams) + ' (st : %s) {struct fuel}' % Sty
+    mod.emit_def(name, params, '%s * bool' % Sty, text, s, keyword='Fixpoint')
+    e2 = env.fork()
+    call = ' '.join([name, par(fuel)] + [n for n, _ in fparams] + [Spat])
+    okq = env.vars['fuel_ok'][0]
+    return "let '(%s, okw) := %s in\n%s" % (Spat, call, let(okq, '%s && okw' % okq, k(e2)))
+
+
+def par_block(body):
+    return '(%s)' % body
 
 
 def calls_record_fn(mod, stmts, env):
